@@ -127,9 +127,10 @@ impl<'ast> VisitorMut<'ast> for BindingEscapeAnalyzer<'_> {
         let direct_eval_old = self.direct_eval;
         self.direct_eval = node.contains_direct_eval || self.direct_eval;
         if let Some(scope) = &mut node.scope {
-            if self.direct_eval {
-                scope.escape_all_bindings();
-            }
+            // Whether a binding declared in one clause is initialized when another clause runs
+            // depends on the jump taken at run time, so the bindings of a `switch` block are kept
+            // in an environment, where the uninitialized state is tracked at run time.
+            scope.escape_all_bindings();
             std::mem::swap(&mut self.scope, scope);
         }
         for case in &mut node.cases {
